@@ -178,6 +178,13 @@ def check(ctx, tier):
     obs += ctx.attempt(lambda c, cl: mergetable.invariants(c, cl, which=("coverage", "no-crash", "cardinality"))[0], ctx, "D-k", default=[])
     obs += ctx.attempt(lambda c, cl: scanner.rdflib_literal_datatype_source(c, cl)[0], ctx, "D-l", default=[])
     obs += ctx.attempt(lambda c, cl: count.class_iteration_agreement(c, cl)[0], ctx, "D-m", default=[])
+    # "exactly one" is offered for the instantiation property only: a hard-coded rdf:type in its place gives plain rdf:type
+    # triples the cardinality 1 that instances with two types do not respect (and the configured property loses it)
+    from .c10 import hardcoded_rdf_type
+    obs += [o for o in ctx.attempt(lambda c, cl: hardcoded_rdf_type(c, cl)[0], ctx, "D-n", default=[]) if "core.profiling" in o.loc.replace("/", ".")
+            or "core.shexing" in o.loc.replace("/", ".")]
+    from ..rules import profile as _profile
+    obs += ctx.attempt(lambda c, cl: _profile.tables(c, cl, ('reference',))[0], ctx, "D-o", default=[])
     exceptions.apply(obs)
     return {"obs": obs, "floors": [Floor("R-TABLE rows evaluated", rows, 20), Floor("memo sites", n_memo, 3)],
             "explanation": "Decision tables of the relaxation (?, * and probability 1 with the original figures kept), of the offered "
